@@ -65,6 +65,11 @@ func c07Values(r *rng) []interface{} {
 		map[string]interface{}{"duration": int64(math.MinInt64)}, map[string]interface{}{"duration": "5124096h"},
 		map[string]interface{}{"unknown": "x"}, map[string]interface{}{}, map[string]interface{}{"int": int64(1), "string": "x"},
 		int(5), nil, []byte("x"), uint64(3), float32(1),
+		// every object kind with a null, and regexes whose text contains the written-literal escape
+		map[string]interface{}{"ident": nil}, map[string]interface{}{"identifier": nil}, map[string]interface{}{"regex": nil}, map[string]interface{}{"string": nil},
+		map[string]interface{}{"float": nil}, map[string]interface{}{"int": nil}, map[string]interface{}{"duration": nil}, map[string]interface{}{"ident": ""},
+		map[string]interface{}{"regex": "a\\/b"}, map[string]interface{}{"regex": "^/var\\/log$"}, map[string]interface{}{"regex": "a\\\\/b"}, map[string]interface{}{"regex": "\\/"},
+		uint64(1 << 63), uint64(1<<64 - 1), int64(-1), map[string]interface{}{"integer": int64(-1)},
 	}
 	for _, s := range hostileStrings {
 		vals = append(vals, s)
